@@ -34,6 +34,9 @@ SPECIAL = [
     "one/nocache/add-1", "vfirst", "one/coll-~X~/one~E-~X~/one~E", "hello/x.TXT", "hello/a.tar.gz", "one/d.", "one/.hidden", "x.json",
     # failing
     "one/fail", "one/fail/add-1", "one/fail/add-1/add-2", "nosuch", "one/add-x", "one/req", "one/add-1-2/ident", "one/add-~X~/one/fail~E", "one/add-~X~fail~E/ident",
+    # long pipelines: a failure after more steps than the child log keeps entries, and one far before the end
+    "one/add-1/add-1/add-1/add-1/add-1/add-1/fail/add-1", "one/add-1/add-1/add-1/add-1/add-1/add-1/add-1/add-1/add-1/fail",
+    "one/fail/add-1/add-1/add-1/add-1/add-1/add-1/add-1/add-1",
     "failfirst/x.txt", "one/sub-" + M.encode_token("one/fail"), "one/sub-" + M.encode_token("one/fail") + "/ident", "one/ns-second/sec/fail/add-1",
 ]
 ENCODABLE = {"text": ("txt", "html", "md", "csv", "json"), "generic": ("json", "html", "htm"), "dictionary": ("json", "djson"), "pickle": ("pickle", "pkl", "json", "html", "htm")}
